@@ -9,6 +9,7 @@ import (
 	"time"
 
 	"github.com/btcsuite/btcd/chainhash/v2"
+	"github.com/btcsuite/btcd/txscript/v2"
 	"github.com/btcsuite/btcd/wire/v2"
 
 	"verif/internal/chaingen"
@@ -43,6 +44,7 @@ const (
 	clCPOnly    = "cp-only-liar" // false filter checkpoint, honest cfheaders (the checkpoint is provably not what its own cfheaders add up to)
 	kindCPOnly  = "checkpoint-only-liar"
 	kindLone    = "lone-liar-then-honest"
+	kindOdd     = "liar-about-unparseable-script"
 	kindRace    = "redial-race"
 	kindSvc     = "services"
 	kindLiar    = "liar-tip"
@@ -72,6 +74,9 @@ type EnfPeerPlan struct {
 	// Late: dials to this peer are refused until the client reported the
 	// initial honest tip.
 	Late bool `json:",omitempty"`
+	// Odd: an omit-script lie is about an output script that does not parse
+	// (BIP158 commits to it all the same), if the chain has one.
+	Odd bool `json:",omitempty"`
 }
 
 // EnfPlan is one enforcement scenario.
@@ -116,6 +121,9 @@ func (pp EnfPeerPlan) label() string {
 	switch pp.Class {
 	case clLiar, clCPLiar, clRaceLiar, clCPOnly, clBatchLiar:
 		l := pp.Class + ":" + pp.Lie.Kind
+		if pp.Odd {
+			l += ":unparseable-script"
+		}
 		if pp.Late {
 			l += ":late"
 		}
@@ -172,8 +180,10 @@ func EnfPlanFromSeed(seed int64, k int) EnfPlan {
 		p.Kind = kindCPOnly
 	case 2:
 		p.Kind = kindLone
+	case 3:
+		p.Kind = kindOdd
 	default:
-		p.Kind = enfKindCycle[(k-3)%len(enfKindCycle)]
+		p.Kind = enfKindCycle[(k-4)%len(enfKindCycle)]
 	}
 	tipLen := 100 + r.Intn(301)
 	cpLen := 1010 + r.Intn(1191)
@@ -212,7 +222,9 @@ func EnfPlanFromSeed(seed int64, k int) EnfPlan {
 		if lo > p.ChainLen {
 			lo = p.ChainLen
 		}
-		return EnfPeerPlan{Class: clLiar, Lie: &netsim.Lie{Kind: provable(), Height: int32(lo + r.Intn(p.ChainLen-lo+1))}}
+		l := EnfPeerPlan{Class: clLiar, Lie: &netsim.Lie{Kind: provable(), Height: int32(lo + r.Intn(p.ChainLen-lo+1))}}
+		l.Odd = l.Lie.Kind == netsim.LieOmitScript && r.Intn(2) == 0
+		return l
 	}
 	cpLiar := func() EnfPeerPlan {
 		return EnfPeerPlan{Class: clCPLiar, Lie: &netsim.Lie{Kind: provable(), Height: int32(1 + r.Intn(lastCP()))}}
@@ -237,6 +249,16 @@ func EnfPlanFromSeed(seed int64, k int) EnfPlan {
 		p.Preset, p.Interval = 0, 8
 		honest(2)
 		add(EnfPeerPlan{Class: clCPOnly, Lie: &netsim.Lie{Kind: netsim.LieCheckpt, Height: 1000}})
+		p.Hold = true
+		return p
+
+	case kindOdd:
+		// FIXED scenario: one honest peer and one peer whose filter for a
+		// block leaves out an output script that does not parse.
+		p.ChainLen = 150
+		p.Preset, p.Interval = 0, 8
+		honest(1)
+		add(EnfPeerPlan{Class: clLiar, Lie: &netsim.Lie{Kind: netsim.LieOmitScript, Height: 75}, Odd: true})
 		p.Hold = true
 		return p
 
@@ -651,6 +673,20 @@ func (e *enfWorld) fitLie(pp *EnfPeerPlan) {
 		} else {
 			lo = last + 1
 		}
+	}
+	if pp.Odd {
+		for d := int32(0); d <= hi-lo; d++ {
+			for _, h := range []int32{pp.Lie.Height + d, pp.Lie.Height - d} {
+				if h < lo || h > hi {
+					continue
+				}
+				if sc := netsim.OmittableScript(e.Trunk[h-1]); sc != nil && txscript.IsUnspendable(sc) {
+					pp.Lie.Height = h
+					return
+				}
+			}
+		}
+		pp.Odd = false
 	}
 	for d := int32(0); d <= hi-lo; d++ {
 		for _, h := range []int32{pp.Lie.Height + d, pp.Lie.Height - d} {
